@@ -160,7 +160,34 @@ fn full_walk<'a>(ctx: &mut Ctx, mut it: TagIter<'a>, payload: &[u8], pbase: usiz
 fn module_walk(ctx: &mut Ctx, bi: &BootInformation, payload: &[u8], pbase: usize, items: &[WalkItem], refuse: bool) {
     let mods: Vec<&WalkItem> = items.iter().filter(|i| i.typ == 3).collect();
     let undersized = mods.iter().any(|m| m.size < 16);
+    // protocol: Debug and a clone taken from the fresh iterator must not disturb it; the clone yields the same
     let mut it = bi.module_tags();
+    let _ = ctx.call("Debug(ModuleIter)", || format!("{:?}", it).len());
+    if !(refuse || undersized) {
+        let r = ctx.call("ModuleIter clone/exhaustion", || {
+            let mut a = bi.module_tags();
+            let first = a.next().map(|m| m as *const _ as *const u8 as usize);
+            let b = a.clone();
+            let ra: Vec<usize> = a.by_ref().map(|m| m as *const _ as *const u8 as usize).collect();
+            let rb: Vec<usize> = b.map(|m| m as *const _ as *const u8 as usize).collect();
+            let after = (a.next().is_some(), a.next().is_some());
+            let nth1 = bi.module_tags().nth(1).map(|m| m as *const _ as *const u8 as usize);
+            let cnt = bi.module_tags().count();
+            (first, ra, rb, after, nth1, cnt)
+        });
+        match r {
+            Out::Val((first, ra, rb, after, nth1, cnt)) => {
+                let want: Vec<usize> = mods.iter().map(|m| pbase + m.off).collect();
+                let mut got = vec![];
+                got.extend(first);
+                got.extend(ra.iter().copied());
+                if got != want || (first.is_some() && rb != ra) || after != (false, false) || nth1 != want.get(1).copied() || cnt != want.len() {
+                    ctx.violation("c03/modules/protocol", || format!("module iterator protocol: first+rest {:?}, clone-after-first {:?}, next-after-None {:?}, nth(1) {:?}, count {}; reference module tags at {:?}", got.iter().map(|a| a - pbase).collect::<Vec<_>>(), rb.iter().map(|a| a - pbase).collect::<Vec<_>>(), after, nth1.map(|a| a - pbase), cnt, mods.iter().map(|m| m.off).collect::<Vec<_>>()));
+                }
+            }
+            Out::Panic => ctx.violation("c03/modules/spurious-panic", || "module iterator protocol calls panicked on a well-formed walk".into()),
+        }
+    }
     let mut k = 0;
     loop {
         if k > payload.len() / 8 + 2 {
@@ -416,6 +443,32 @@ fn run(ctx: &mut Ctx) {
             );
         });
         p += 8;
+    }
+    // many modules in one region: runs of modules, modules as the final tags, modules after an end-type tag
+    ctx.bound("many_modules", "regions of 3..=40 tags built from every pattern of period <= 3 over {module(16), module(21), other(12), end-type(8)} plus the final end tag");
+    let big = Arena::new(4);
+    for n in [3usize, 4, 7, 16, 17, 33, 40] {
+        for period in 1..=3usize {
+            for code in 0..4usize.pow(period as u32) {
+                let mut pl: Vec<u8> = vec![];
+                for i in 0..n {
+                    let sym = (code / 4usize.pow((i % period) as u32)) % 4;
+                    let (typ, size) = [(3u32, 16usize), (3, 21), (1, 12), (0, 8)][sym];
+                    let mut t = vec![0u8; round8(size)];
+                    for (j, b) in t.iter_mut().enumerate() {
+                        *b = marker(i * 24 + j, 2);
+                    }
+                    wr32(&mut t, 0, typ);
+                    wr32(&mut t, 4, size as u32);
+                    pl.extend(t);
+                }
+                pl.extend_from_slice(&[0, 0, 0, 0, 8, 0, 0, 0]);
+                ctx.leaf(
+                    || J::obj().set("body", "many-modules").set("tags", n).set("pattern_code", code).set("period", period).set("payload_len", pl.len()),
+                    |ctx| exec_region(ctx, &big, &pl, true),
+                );
+            }
+        }
     }
     // histories
     let depth = if quick { 4 } else if ctx.dev_profile() { 5 } else { 6 };
